@@ -38,7 +38,7 @@ PROPS = {
                 invariants="MaskExactInv (MC), same-unmasked-symbol per group + MaskOp (TV), MaskLemmas"),
     "C09": dict(scen=[("core", "modes", True), ("core", "discovered", False), ("hooked", "bestmode", False), ("diff", "diffbuild", False)], mc=mc_join(PIPE, LEMMAS),
                 invariants="AutoModeCompactInv (MC), AutoModeCompact/BestMode (TV), EncodeLemmas"),
-    "C10": dict(scen=[("core", "total", True), ("core", "aftermath", True), ("core", "discovered", False), ("diff", "diffbuild", False)], mc=PIPE, invariants="OutcomeTotal (MC), Panic/Timeout outcomes match no action (TV)"),
+    "C10": dict(scen=[("core", "total", True), ("core", "nearblocks", True), ("core", "aftermath", True), ("core", "discovered", False), ("diff", "diffbuild", False)], mc=PIPE, invariants="OutcomeTotal (MC), Panic/Timeout outcomes match no action (TV)"),
     "C11": dict(scen=[("hooked", "candidates", False), ("core", "candgroups", True)], mc=mc_join(MSEL, PIPE), apalache=["MaskSelect"],
                 invariants="MaskMinimalInv (MC_Pipeline), Minimal/IndInv (MC_MaskSelect, Apalache), chosen in argmin of Penalty over recorded candidates (TV)"),
     "C15": dict(scen=[("core", "cells", True), ("core", "callbacks", True), ("hooked", "maskop", False)], mc=mc_join(PIPE, LEMMAS),
@@ -81,7 +81,7 @@ PROPS["C14"] = dict(scen=[("core", "histories:SeqEclMask", True), ("core", "hist
 CLAIMS = {
  "C01": ("TLC model-checks the staged build machine (every option combination over a small input set, decode path against construction path) and validates Build events of the real crate: all 160 (version, level) cells x boundary lengths (capacity, capacity-1, smallest length needing the version, 0/1, half) x rotating modes and forced/automatic masks, every payload length 0..260 (0..1200 thorough) per mode, structured contents (long runs, 000/999 groups, pad look-alikes, repeated records, every digit triple and alphanumeric pair, user-like and periodic contents), inputs discovered by a coverage-guided fuzzer; each symbol is decoded by the ISO reference procedure written in TLA+ (format bits, unmasking, zig-zag read-out, de-interleaving, strict single-segment parse) and must give back the input.",
          "Payload bytes are sampled (seeded); configuration cells are enumerated and counted. The decoder is the specification's own (QRDecode.tla), independent of every table of the crate."),
- "C02": ("Block count, block sizes (short blocks first), interleaving, remainder bits and all syndromes are read off every built symbol of all 160 cells and compared with the geometry-derived layout and GF(256) generated from 0x11D; Corrupt events apply seeded error patterns of weight 1, t/2 and t = floor(ec/2) per block (burst and spread) and a Berlekamp-Massey/Chien/Forney decoder written in TLA+ must recover every block; byte payloads whose data blocks mirror each other up to a compensating difference (against digest-keyed shortcuts), blocks shaped at the codeword level (the padding alternation exact or with one codeword changed, all zero, all 0xFF, copies, reversals and rotations of another block, in pairs), and the birthday sweep described under C07; the crate's block-group table is judged cell by cell through the hook tier.",
+ "C02": ("Block count, block sizes (short blocks first), interleaving, remainder bits and all syndromes are read off every built symbol of all 160 cells and compared with the geometry-derived layout and GF(256) generated from 0x11D; Corrupt events apply seeded error patterns of weight 1, t/2 and t = floor(ec/2) per block (burst and spread) and a Berlekamp-Massey/Chien/Forney decoder written in TLA+ must recover every block; byte payloads whose data blocks mirror each other up to a compensating difference (against digest-keyed shortcuts), blocks shaped at the codeword level (the padding alternation exact or with one codeword changed, all zero, all 0xFF, copies, reversals and rotations of another block, blocks whose division passes through a run of zero leading coefficients at the end or in the middle, in pairs), and the birthday sweep described under C07; the crate's block-group table is judged cell by cell through the hook tier.",
          "Error patterns are sampled; the algebraic guarantee rests on the syndrome check, which is made on every block of every event. ISO Table 9 (EC codewords per block, number of blocks) is typed into the specification and cross-checked by MC_Lemmas against the geometric module count."),
  "C03": ("Every module of every built symbol that lies in a function pattern is compared with the closed-form geometry of QRLayout.tla (finder rings, separators, timing parity, Annex E alignment centres in closed form, dark module); the tail of the 177x177 backing array must stay default; blank symbols of all 40 versions and every mask sweep alone are judged through the hook tier.",
          "Exhaustive over (version, coordinate); payload, level and mask are sampled per cell (payload-independence is observed, not proved)."),
@@ -97,7 +97,7 @@ CLAIMS = {
          "One level per version in the quick tier (all four in thorough); payloads sampled."),
  "C09": ("Reported mode and decoded mode indicator against BestMode: all 256 byte values at every position of strings of length <= 4 and at four positions of lengths 8, 9, 16, 17, 33, with digit and alphanumeric filler; all class patterns up to length 6 / 8; long strings; inputs discovered by a coverage-guided fuzzer (about 700 per run, judged like any other); valid UTF-8 texts drawn by Unicode category (digits of other scripts, other numerics, letters, white space, full-width look-alikes, zero-width characters) alone and mixed with ASCII digits and upper case; the classifier alone on 6 000 / 100 000 inputs through the hook tier. A crash of an automatic-mode build is attributed to this property when the same input builds with the most compact mode forced.",
          "Long strings are sampled."),
- "C10": ("Every build runs under catch_unwind on a watchdog thread with overflow checks and debug assertions on; Panic/Timeout outcomes match no action. Covered: seeded lengths up to 8 000 (every length in thorough), the 2^16 neighbourhood, 10^5/10^6 and 390-537 MB inputs (beyond 2^32 in thorough), builds that follow a rejected or failing request on the same thread (aftermath), inputs discovered by a coverage-guided fuzzer, six content kinds, every byte value as only content, the empty input, all combinations of {unset, smallest, largest} per option.",
+ "C10": ("Every build runs under catch_unwind on a watchdog thread with overflow checks and debug assertions on; Panic/Timeout outcomes match no action. Covered: seeded lengths up to 8 000 (every length in thorough), the 2^16 neighbourhood, 10^5/10^6 and 390-537 MB inputs (beyond 2^32 in thorough), builds that follow a rejected or failing request on the same thread (aftermath), inputs discovered by a coverage-guided fuzzer, blocks shaped at the codeword level (incl. blocks whose Reed-Solomon division passes through runs of zero coefficients), six content kinds, every byte value as only content, the empty input, all combinations of {unset, smallest, largest} per option.",
          "Non-termination is bounded by a 30 s watchdog, not proved. Memory safety is what Rust's checks plus the enabled assertions trap."),
  "C11": ("The recorder hook gives the eight candidates as the selection loop saw them; TLC computes the documented penalty of each (runs, 1011101 windows, 2x2 blocks, dark ratio; line-scan formulation proved equal to the per-cell one on sample matrices) and the emitted mask must be an arg-min; a forced mask must override. Inputs are selected for close calls (700 closest of 12 000 small symbols), uniform contents reach the highest penalties, and a steered search puts a candidate exactly on a step of the dark-ratio term (2/5 or 3/5 of the modules dark, versions whose side is a multiple of 5) while within ten points of the best other candidate. Design level: the selection loop is model-checked over all score vectors in a small range and proved for unbounded scores with Apalache. Public-API fallback: eight forced-mask builds plus the automatic one.",
          "Payload-sampled: only a flipped arg-min is observable. Ties are allowed."),
